@@ -1,11 +1,172 @@
-/- Line-protocol driver for C19 (stub until the property's models exist). -/
-import PyIpmi.Base.Proto
-open PyIpmi.Proto
+/-
+  Line-protocol driver for C19 (ipmitool back-end).
 
-def handleC19 (line : String) : String :=
+  Strings travel as comma-separated code points (`-` = empty string), byte lists as hex.
+
+    words <str>                                   -> ok <n> <w>* R <fd:fd>* | expands | syntaxError | unsupported
+    lan <var> <path> <iface> <host> <port> <level> <cipher> <auth> <target> <lun> <netfn> <rawhex>
+    open <var> <path> <iface> <target> <lun> <netfn> <rawhex>
+    serial <var> <path> <iface> <port> <baud> <target> <lun> <netfn> <rawhex>
+    ping <var> <path> <iface> <host> <port> <auth>          -> ok <str> | <error tag>      (Model)
+    xlan <path> <iface> <host> <port> <level> <cipher> <auth> <target> <lun> <netfn> <rawhex>
+    xopen … / xserial … / xping …  (same operands, no <var>)   -> ok <n> <w>* | none           (Spec argv)
+    recv <rc> <str>                               -> ok <hex> | <error tag>                 (Model)
+    print <hex> | toline <ch> <nf> <lun> <cmd> | ccline <ch> <nf> <lun> <cmd> <cc> <str>    -> <str> (Spec)
+
+    var    ::= three of 0/1: escape, cipherNotNone, depth1
+    cipher ::= N | T<str> | F<str>
+    auth   ::= N | P<user>/<pass> | O<n>
+    target ::= N | A<addr> | R<addr>:<rq>.<rs>.<ch>;…   (R<addr>: = empty routing list)
+-/
+import PyIpmi.Base.Proto
+import PyIpmi.Model.Ipmitool
+import PyIpmi.Spec.Sh
+import PyIpmi.Spec.IpmitoolPrint
+open PyIpmi PyIpmi.Proto
+
+namespace C19
+open PyIpmi.Model.Ipmitool
+
+def pStr (s : String) : Option (List Nat) := parseNatList s
+def sStr (s : List Nat) : String := natList s
+
+def pVar (s : String) : Option Variant :=
+  match s.toList with
+  | [a, b, c] => some ⟨a == '1', b == '1', c == '1'⟩
+  | _ => none
+
+def pCipher (s : String) : Option Cipher :=
+  if s == "N" then some .none
+  else if s.startsWith "T" then (pStr (s.drop 1).toString).map (.val true)
+  else if s.startsWith "F" then (pStr (s.drop 1).toString).map (.val false)
+  else none
+
+def pAuth (s : String) : Option Auth :=
+  if s == "N" then some .none
+  else if s.startsWith "O" then (s.drop 1).toString.toNat?.map .other
+  else if s.startsWith "P" then
+    match (s.drop 1).toString.splitOn "/" with
+    | [u, p] => do some (.password (← pStr u) (← pStr p))
+    | _ => none
+  else none
+
+def pHop (s : String) : Option Hop :=
+  match s.splitOn "." with
+  | [a, b, c] => do some ⟨← a.toNat?, ← b.toNat?, ← c.toNat?⟩
+  | _ => none
+
+def pTarget (s : String) : Option Target :=
+  if s == "N" then some .none
+  else if s.startsWith "A" then (s.drop 1).toString.toNat?.map (.mk none)
+  else if s.startsWith "R" then
+    match (s.drop 1).toString.splitOn ":" with
+    | [a, hops] => do
+      let a ← a.toNat?
+      let hs ← if hops == "" then some [] else (hops.splitOn ";").mapM pHop
+      some (.mk (some hs) a)
+    | _ => none
+  else none
+
+def showOut (o : Outcome (List Nat)) : String :=
+  match o with
+  | .ok s => "ok " ++ sStr s
+  | e => e.tag
+
+def showBytes (o : Outcome (List Nat)) : String :=
+  match o with
+  | .ok s => "ok " ++ toHex s
+  | e => e.tag
+
+def showWords (r : Spec.Sh.Result) : String :=
+  match r with
+  | .ok argv redirs =>
+    s!"ok {argv.length} " ++ " ".intercalate (argv.map sStr) ++ " R"
+      ++ String.join (redirs.map fun (a, b) => s!" {a}:{b}")
+  | .expands => "expands"
+  | .syntaxError => "syntaxError"
+  | .unsupported => "unsupported"
+
+def showArgv (o : Option (List (List Nat))) : String :=
+  match o with
+  | some argv => s!"ok {argv.length} " ++ " ".intercalate (argv.map sStr)
+  | none => "none"
+
+def handle (line : String) : String :=
   match tokens line with
   | ["ping"] => "pong"
+  | ["words", s] =>
+    match pStr s with
+    | some s => showWords (Spec.Sh.words s)
+    | none => "bad-op"
+  | ["lan", v, path, iface, host, port, level, cipher, auth, target, lun, netfn, raw] =>
+    match pVar v, pStr path, pStr iface, pStr host, pStr port, level.toNat?, pCipher cipher, pAuth auth,
+          pTarget target, lun.toNat?, netfn.toNat?, ofHex raw with
+    | some v, some path, some iface, some host, some port, some level, some cipher, some auth,
+      some target, some lun, some netfn, some raw =>
+      showOut (buildLan v ⟨path, iface, host, port, level, cipher, auth⟩ target lun netfn raw)
+    | _, _, _, _, _, _, _, _, _, _, _, _ => "bad-op"
+  | ["open", v, path, iface, target, lun, netfn, raw] =>
+    match pVar v, pStr path, pStr iface, pTarget target, lun.toNat?, netfn.toNat?, ofHex raw with
+    | some v, some path, some iface, some target, some lun, some netfn, some raw =>
+      showOut (buildOpen v path iface target lun netfn raw)
+    | _, _, _, _, _, _, _ => "bad-op"
+  | ["serial", v, path, iface, port, baud, target, lun, netfn, raw] =>
+    match pVar v, pStr path, pStr iface, pStr port, pStr baud, pTarget target, lun.toNat?, netfn.toNat?,
+          ofHex raw with
+    | some v, some path, some iface, some port, some baud, some target, some lun, some netfn, some raw =>
+      showOut (buildSerial v path iface port baud target lun netfn raw)
+    | _, _, _, _, _, _, _, _, _ => "bad-op"
+  | ["ping", v, path, iface, host, port, auth] =>
+    match pVar v, pStr path, pStr iface, pStr host, pStr port, pAuth auth with
+    | some v, some path, some iface, some host, some port, some auth =>
+      showOut (buildPing v path iface host port auth)
+    | _, _, _, _, _, _ => "bad-op"
+  | ["xlan", path, iface, host, port, level, cipher, auth, target, lun, netfn, raw] =>
+    match pStr path, pStr iface, pStr host, pStr port, level.toNat?, pCipher cipher, pAuth auth,
+          pTarget target, lun.toNat?, netfn.toNat?, ofHex raw with
+    | some path, some iface, some host, some port, some level, some cipher, some auth,
+      some target, some lun, some netfn, some raw =>
+      match (Lan.toSpec ⟨path, iface, host, port, level, cipher, auth⟩) with
+      | some c => showArgv (Spec.Ipmitool.lanArgv c target.toSpec lun netfn raw)
+      | none => "none"
+    | _, _, _, _, _, _, _, _, _, _, _ => "bad-op"
+  | ["xopen", path, iface, target, lun, netfn, raw] =>
+    match pStr path, pStr iface, pTarget target, lun.toNat?, netfn.toNat?, ofHex raw with
+    | some path, some iface, some target, some lun, some netfn, some raw =>
+      showArgv (Spec.Ipmitool.openArgv path iface (target.toSpec) lun netfn raw)
+    | _, _, _, _, _, _ => "bad-op"
+  | ["xserial", path, iface, port, baud, target, lun, netfn, raw] =>
+    match pStr path, pStr iface, pStr port, pStr baud, pTarget target, lun.toNat?, netfn.toNat?, ofHex raw with
+    | some path, some iface, some port, some baud, some target, some lun, some netfn, some raw =>
+      showArgv (Spec.Ipmitool.serialArgv path iface port baud (target.toSpec) lun netfn raw)
+    | _, _, _, _, _, _, _, _ => "bad-op"
+  | ["xping", path, iface, host, port, auth] =>
+    match pStr path, pStr iface, pStr host, pStr port, pAuth auth with
+    | some path, some iface, some host, some port, some auth =>
+      match auth.toSpec with
+      | some cr => showArgv (some (Spec.Ipmitool.pingArgv path iface host port cr))
+      | none => "none"
+    | _, _, _, _, _ => "bad-op"
+  | ["recv", rc, out] =>
+    match rc.toNat?, pStr out with
+    | some rc, some out => showBytes (recv out rc)
+    | _, _ => "bad-op"
+  | ["print", h] =>
+    match ofHex h with
+    | some bs => sStr (Spec.Ipmitool.printRaw bs)
+    | none => "bad-op"
+  | ["toline", ch, nf, lun, cmd] =>
+    match ch.toNat?, nf.toNat?, lun.toNat?, cmd.toNat? with
+    | some ch, some nf, some lun, some cmd => sStr (Spec.Ipmitool.timeoutLine ch nf lun cmd)
+    | _, _, _, _ => "bad-op"
+  | ["ccline", ch, nf, lun, cmd, cc, text] =>
+    match ch.toNat?, nf.toNat?, lun.toNat?, cmd.toNat?, cc.toNat?, pStr text with
+    | some ch, some nf, some lun, some cmd, some cc, some text =>
+      sStr (Spec.Ipmitool.ccLine ch nf lun cmd cc text)
+    | _, _, _, _, _, _ => "bad-op"
   | _ => "bad-op"
 
+end C19
+
 def main : IO Unit := do
-  loop (← IO.getStdin) (← IO.getStdout) handleC19
+  loop (← IO.getStdin) (← IO.getStdout) C19.handle
